@@ -418,7 +418,8 @@ def run_shard(shard, rec):
                             rec.count("codec_baseexc_ok")
         return      # this shard only decides the codec-level part
     sername = shard["serializer"]
-    fx = fixture.Fixture(servertype=shard["servertype"], COMMTIMEOUT=0.0, ITER_STREAMING=True, DETAILED_TRACEBACK=False)
+    fx = fixture.Fixture(servertype=shard["servertype"], COMMTIMEOUT=0.0, ITER_STREAMING=True, variant=fixture.variant_for(rec.seed, "c07", repr(sorted(shard.items()))))
+    rec.count("fixture_variant:" + fx.variant)
     try:
         armed, svc = make_service(P, registry)
         fx.register(svc, "svc")
